@@ -8,6 +8,9 @@ Targets == { T(FALSE, <<"..", "sent">>), T(TRUE, <<"w", "sent">>), T(FALSE, <<".
 Names   == { <<"a">>, <<"b">>, <<"..", "a">>, <<"a", "b">>, <<"..">> }
 QEntries == { F(n) : n \in Names } \cup { L(n, t) : n \in { <<"a">>, <<"b">>, <<"..", "a">> }, t \in Targets }
 QDirNames == { <<"a">>, <<"b">> }
+(* directory entries whose names reach one and two levels below what may be a symlink *)
+DEntries == { F(<<"a">>), F(<<"b">>), L(<<"a">>, T(FALSE, <<"..", "sdir">>)), L(<<"a">>, T(FALSE, <<"..">>)), L(<<"a">>, T(TRUE, <<"w", "new">>)) }
+DDirNames == { <<"a">>, <<"a", "x">>, <<"a", "x", "y">> }
 (* thorough tier: three top-level entries over a reduced alphabet (full alphabet cubed is 8 M CLI runs) *)
 TTargets == { T(FALSE, <<"..", "sent">>), T(TRUE, <<"w", "sent">>), T(FALSE, <<"..", "sdir">>), T(FALSE, <<"b">>), T(FALSE, <<"..">>) }
 TEntries == { F(n) : n \in { <<"a">>, <<"b">>, <<"..", "a">>, <<"a", "b">> } } \cup { L(n, t) : n \in { <<"a">>, <<"b">> }, t \in TTargets }
